@@ -376,9 +376,20 @@ func (cl *Client) pickConn() (*Conn, error) {
 const roundTripAttempts = 4
 
 func (cl *Client) RoundTrip(_ *fasthttp.HostClient, req *fasthttp.Request, res *fasthttp.Response) (retry bool, err error) {
+	// A body that comes from a reader can only be sent once.
+	streamed := req.IsBodyStream()
+
 	for attempt := 0; ; attempt++ {
 		err = cl.roundTripOnce(req, res)
 		if err == nil || !retryable(err) {
+			return false, err
+		}
+
+		// The server disclaimed the stream, but by then the stream was open:
+		// part of a streamed body may have gone out on it, and the reader has
+		// been closed. Sending the request again would send it without its
+		// body, under the content-length of the whole one.
+		if streamed && errors.Is(err, ErrUnprocessed) {
 			return false, err
 		}
 
